@@ -169,11 +169,14 @@ def _metrics(ix, driver, i, op, res):
     if m is None:
         return {"metrics": {"exc": e, "nodes": 0, "pages": 0, "crawled": 0, "tails": 0, "frag": 0,
                             "stems": 0, "links": 0}}
-    lt = m["lru_trie"]
+    lt, b, lm = m["lru_trie"], m["bst"], m["links"]
     return {"metrics": {"exc": "", "nodes": lt["nb_nodes"], "pages": lt["nb_pages"],
                         "crawled": lt["nb_crawled_pages"], "tails": lt["nb_tail_nodes"],
                         "frag": lt["nb_fragmented_nodes"], "stems": lt["nb_stems"],
-                        "links": m["link_store"]["nb_links"]}}
+                        "links": m["link_store"]["nb_links"], "maxtail": lt["max_tail"],
+                        "bst": {"nb": b["nb_bst"], "maxh": b["max_bst_height"], "maxs": b["max_bst_size"]},
+                        "lm": {"maxin": lm["max_inlinks_len"], "maxout": lm["max_outlinks_len"],
+                               "inlru": lm["max_inlinks_lru"] or b"", "outlru": lm["max_outlinks_lru"] or b""}}}
 
 
 hook_metrics = wrap(_metrics)
